@@ -96,6 +96,15 @@ func verifDir() string {
 	return "/verif"
 }
 
+// outDir is where evidence and replay files go (VERIF_OUT is a development
+// aid for runs against scratch checkouts; registered commands never set it).
+func outDir() string {
+	if d := os.Getenv("VERIF_OUT"); d != "" {
+		return d
+	}
+	return verifDir()
+}
+
 // Main is the entry point of cmd/check.
 func Main() {
 	args := os.Args[1:]
@@ -355,7 +364,7 @@ func driverMain(id, tier string) int {
 	exit := 0
 	reported := 0
 	knownHit := map[string]bool{}
-	os.MkdirAll(filepath.Join(verifDir(), "replays"), 0o755)
+	os.MkdirAll(filepath.Join(outDir(), "replays"), 0o755)
 	shardByName := map[string]*Shard{}
 	for i := range shards {
 		shardByName[shards[i].Name] = &shards[i]
@@ -410,7 +419,7 @@ func driverMain(id, tier string) int {
 		if matched {
 			continue
 		}
-		path := filepath.Join(verifDir(), "replays", fmt.Sprintf("%s-%s.json", v.Property, v.Signature()))
+		path := filepath.Join(outDir(), "replays", fmt.Sprintf("%s-%s.json", v.Property, v.Signature()))
 		rep := map[string]any{"property": v.Property, "clause": v.Clause, "check": id, "tier": tier, "scenario": v.Scenario,
 			"seed": v.Seed, "history": v.History, "detail": v.Detail,
 			"replay_cmd": fmt.Sprintf("/verif/bin/check.sh --replay %s", path)}
@@ -469,9 +478,9 @@ func driverMain(id, tier string) int {
 	}
 	ev := evidence{PropertyID: id, Tier: tier, Seed: seed, Level: p.Level, Coverage: cov,
 		Assumptions: p.Assumptions, WallS: round3(time.Since(start).Seconds()), Violations: reported}
-	os.MkdirAll(filepath.Join(verifDir(), "evidence"), 0o755)
+	os.MkdirAll(filepath.Join(outDir(), "evidence"), 0o755)
 	b, _ := json.MarshalIndent(ev, "", " ")
-	os.WriteFile(filepath.Join(verifDir(), "evidence", id+".json"), append(b, '\n'), 0o644)
+	os.WriteFile(filepath.Join(outDir(), "evidence", id+".json"), append(b, '\n'), 0o644)
 	fmt.Printf("%s %s: scenarios=%d states=%d transitions=%d evaluations=%d distinct=%d exhaustive=%v violations=%d wall=%.1fs\n",
 		id, tier, len(shards), states, transitions, evals, distinct, exhaustive, reported, time.Since(start).Seconds())
 	return exit
